@@ -59,13 +59,14 @@ def _run(spec, prop, tier, seed, replay, wd):
 
     if replay:
         body = json.load(open(replay))
-        traces = E.record([(1, body["docs"], body["safes"], body.get("rels") or "all")], nproc=1, rel=spec.get("rel"))
+        traces = E.record([(1, body["docs"], body["safes"], body.get("rels") or "all")], nproc=1, rel=spec.get("rel"), driver=spec.get("driver", "builder"))
         rows, _ = E.validate(prop, traces, wd, workers=1)
         row = rows.get(1)
         print("replay: (model-vs-library, formula on library outcome, formula on model outcome) =", row[:3] if row else "rejected by the specification")
         for y in body["yaml"]:
             print("---\n" + y, end="")
         import drive
+        drive.DRIVER = spec.get("driver", "builder")
         outs = drive.stage_outcomes(body["docs"], body["safes"])
         for j, o in enumerate(outs):
             print(f"  library after stage {j+1}:", json.dumps(E.compact_node(o) if "err" not in o else {"e": o["err"]}))
@@ -110,7 +111,7 @@ def _run(spec, prop, tier, seed, replay, wd):
         cov["states"] += ex["states"]
         cov["transitions"] += ex["transitions"]
         t0 = time.time()
-        mism = E.replay(uni, behs, rel=spec.get("rel"))
+        mism = E.replay(uni, behs, rel=spec.get("rel"), driver=spec.get("driver", "builder"))
         replayed += len(behs)
         cov["configs"][-1]["replay_wall_s"] = round(time.time() - t0, 1)
         cov["configs"][-1]["replay_disagreements"] = len(mism)
@@ -131,7 +132,7 @@ def _run(spec, prop, tier, seed, replay, wd):
     hs = histories_from_gen(spec["gen"], n_rand, seed, spec.get("max_stages", 4))
     for tid, docs, safes in hs:
         tid_info[tid] = (docs, safes, None)
-    traces = E.record(hs + mismatch_traces, rel=spec.get("rel"))
+    traces = E.record(hs + mismatch_traces, rel=spec.get("rel"), driver=spec.get("driver", "builder"))
     # ---- B2 -------------------------------------------------------------
     as_is = [f["deviation"] for f in M.known_findings() if f["kind"] == "known" and prop in f["properties"]]
     rows, r = E.validate(prop, traces, wd)
